@@ -153,6 +153,9 @@ namespace OpenMEEG {
 
     void Sensors::save(const char* filename) const {
         std::ofstream outfile(filename);
+        if (!outfile.is_open())
+            throw OpenMEEG::OpenError(filename);
+
         for(size_t i=0; i<getNumberOfPositions(); ++i) {
 
             if (hasNames())
@@ -170,7 +173,10 @@ namespace OpenMEEG {
                 outfile << std::endl;
             }
         }
-        return;
+
+        outfile.close();
+        if (outfile.fail())
+            throw OpenMEEG::IOException(std::string("Error while writing the file ")+filename);
     }
 
     void Sensors::findInjectionTriangles() {
